@@ -1,10 +1,13 @@
 package main
 
 import (
+	"bytes"
+	"encoding/base64"
 	"encoding/hex"
 	"fmt"
 	"image"
 	"image/color"
+	"image/png"
 	"regexp"
 	"strconv"
 	"strings"
@@ -34,7 +37,7 @@ import (
 //	kdraw N col row [ww wh]                 img.Draw(Window().New(col,row,ww,wh)), default -1,-1; not placed if larger than the window (F120 repaired)
 //	kclear                                  Window().Clear()
 //	krender | krefresh                      Render() / Refresh(); graphics sequences parsed from the console output
-//	   placement ops => [D=.. W=.. U=.. ]N=.. L=.. R=0|1   (deleted, written, uploaded; next list, last list, refresh flag)
+//	   placement ops => [D=.. W=.. U=.. Q=.. ]N=.. L=.. R=0|1   (deleted, written, uploaded; all graphics commands in the order written; next list, last list, refresh flag)
 func main() { hx.Main("C20", runC20) }
 
 const (
@@ -174,17 +177,19 @@ func (s *session) block(kind string, a []int, hexpix string) (string, bool) {
 	return out.String(), true
 }
 
-var reGfx = regexp.MustCompile(`\x1b\[(\d+);(\d+)H|\x1b_Ga=p,i=(\d+),p=(\d+),C=1\x1b\\|\x1b_Ga=d,d=i,i=(\d+),p=(\d+)\x1b\\|\x1b_Gf=100,i=(\d+),m=(\d+);[^\x1b]*\x1b\\|\x1b_G[^\x1b]*\x1b\\|(\x1bP[0-9;]*q)[^\x1b]*\x1b\\`)
+var reGfx = regexp.MustCompile(`\x1b\[(\d+);(\d+)H|\x1b_Ga=p,i=(\d+),p=(\d+),C=1\x1b\\|\x1b_Ga=d,d=i,i=(\d+),p=(\d+)\x1b\\|\x1b_Gf=100,i=(\d+),m=(\d+);([^\x1b]*)\x1b\\|\x1b_G[^\x1b]*\x1b\\|(\x1bP[0-9;]*q)[^\x1b]*\x1b\\`)
 
-// parseGfx extracts, in order, deletions, placements (with a check that the cursor was moved to the
-// placement's cell first) and image uploads from what vaxis wrote.
+// parseGfx extracts deletions, placements (with a check that the cursor was moved to the placement's cell first) and
+// image uploads from what vaxis wrote, and (round 4) `Q=`: ALL graphics commands in the order they were written —
+// `d<id>@<col>,<row>` (a=d of one placement), `p<id>@<col>,<row>` (a=p), `t<id>:<W>x<H>` (one complete transmission of
+// image data: the chunks up to m=0 joined, base64-decoded, and the pixel size of the PNG they hold; `?` when they do
+// not decode), `S@<col>,<row>` (sixel data at the cursor).  The driver runs an order-sensitive model of the terminal's
+// image and placement tables on it (a delete after the a=p of the same placement id removes the new placement).
 func parseGfx(b []byte) string {
-	var d, w, u []string
+	var d, w, u, q []string
 	cupRow, cupCol := -1, -1
 	lastUp := -1
-	// kitty placements written so far in this output: a delete of the same (image, placement id) that comes after the
-	// write removes what was just placed (the order of the two loops of render matters; round 3)
-	written := map[[2]int]bool{}
+	var payload strings.Builder
 	for _, m := range reGfx.FindAllStringSubmatch(string(b), -1) {
 		switch {
 		case m[1] != "":
@@ -195,34 +200,47 @@ func parseGfx(b []byte) string {
 			pid, _ := strconv.Atoi(m[4])
 			col, row := pid>>16, pid&0xffff
 			e := fmt.Sprintf("%d@%d,%d", id, col, row)
+			q = append(q, "p"+e)
 			if cupRow != row+1 || cupCol != col+1 {
 				e += fmt.Sprintf("!cursor-at-%d,%d", cupCol-1, cupRow-1)
 			}
 			w = append(w, e)
-			written[[2]int{id, pid}] = true
 		case m[5] != "":
 			id, _ := strconv.Atoi(m[5])
 			pid, _ := strconv.Atoi(m[6])
 			e := fmt.Sprintf("%d@%d,%d", id, pid>>16, pid&0xffff)
-			if written[[2]int{id, pid}] {
-				e += "!deleted-after-it-was-written-in-this-frame"
-			}
 			d = append(d, e)
+			q = append(q, "d"+e)
 		case m[7] != "":
 			id, _ := strconv.Atoi(m[7])
 			if id != lastUp {
 				u = append(u, strconv.Itoa(id))
+				payload.Reset()
 			}
 			lastUp = id
+			payload.WriteString(m[9])
 			if m[8] == "0" {
 				lastUp = -1
+				dims := "?"
+				if raw, err := base64.StdEncoding.DecodeString(payload.String()); err == nil {
+					if cfg, err := png.DecodeConfig(bytes.NewReader(raw)); err == nil {
+						dims = fmt.Sprintf("%dx%d", cfg.Width, cfg.Height)
+					}
+				}
+				q = append(q, fmt.Sprintf("t%d:%s", id, dims))
+				payload.Reset()
 			}
-		case m[9] != "":
+		case m[10] != "":
 			// sixel data is written at the cursor: identified by its cell
 			w = append(w, fmt.Sprintf("S@%d,%d", cupCol-1, cupRow-1))
+			q = append(q, fmt.Sprintf("S@%d,%d", cupCol-1, cupRow-1))
 		default:
 			w = append(w, "unknown-graphics-sequence:"+hx.Hex(m[0]))
+			q = append(q, "unknown-graphics-sequence:"+hx.Hex(m[0]))
 		}
+	}
+	if lastUp != -1 {
+		q = append(q, fmt.Sprintf("t%d:unterminated", lastUp))
 	}
 	j := func(l []string) string {
 		if len(l) == 0 {
@@ -230,7 +248,7 @@ func parseGfx(b []byte) string {
 		}
 		return strings.Join(l, ";")
 	}
-	return fmt.Sprintf("D=%s W=%s U=%s ", j(d), j(w), j(u))
+	return fmt.Sprintf("D=%s W=%s U=%s Q=%s ", j(d), j(w), j(u), j(q))
 }
 
 func (s *session) snap() string {
